@@ -64,4 +64,33 @@ theorem delete99_spec (s : State) :
       ∀ y, y ≠ 24 → s'.vars y = s.vars y) := by
   rw [delete_same]; exact C11Flush.delete_spec s
 
+/-- **yyrestart(f)** of the c99 skeleton, with a current buffer: the statement of `restart_current` -/
+theorem restart99_current (s : State) (hslot : s.vars 24 ≠ 0) (hb : s.vars 0 ≠ 0) (hcur : s.vars 1 ≠ 0) (hlen : 2 ≤ s.arr.length) :
+    ∃ s', Gen.FlushC99.restart.run s = (s', .normal) ∧ C11Flush.Restarted s s' ∧ s'.arr.length = s.arr.length ∧
+      s'.vars 24 = s.vars 24 ∧ s'.vars 8 = s.vars 8 ∧ s'.vars 9 = s.vars 9 ∧ s'.log = s.log := by
+  obtain ⟨x0, x1, rest, harr⟩ : ∃ x0 x1 rest, s.arr = x0 :: x1 :: rest := by
+    match h : s.arr with
+    | [] => simp [h] at hlen
+    | [_] => simp [h] at hlen
+    | x0 :: x1 :: rest => exact ⟨x0, x1, rest, rfl⟩
+  by_cases hf : s.vars 25 = 0 <;> by_cases ht : s.vars 17 = 0
+  all_goals
+    refine ⟨_, by simp [Gen.FlushC99.restart, St.run, Ex.eval, bind, Option.bind, pure, b2i, hslot, hb, hcur, hf, ht, harr, setVar_vars]; rfl, ?_⟩
+    refine ⟨⟨?_, ?_, ?_, ?_, ?_, ?_, ?_, ?_, ?_, ?_, ?_⟩, ?_, ?_, ?_, ?_, ?_⟩ <;>
+      simp [setVar_vars, harr, Gen.Flush.cYY_BUFFER_NEW, hslot, hcur, hf, ht]
+
+/-- **yyrestart(f)** of the c99 skeleton, without a current buffer: the statement of `restart_fresh` -/
+theorem restart99_fresh (s : State) (hslot : s.vars 24 = 0) (harr : s.arr = []) (hsz : 0 ≤ s.vars 26) :
+    ∃ s', Gen.FlushC99.restart.run s = (s', .normal) ∧ C11Flush.Restarted s s' ∧ (s'.arr.length : Int) = s.vars 26 + 2 ∧
+      s'.vars 21 = s.vars 26 ∧ s'.vars 22 = 1 ∧ s'.vars 8 = 1 ∧ s'.vars 9 = 0 ∧ s'.log = s.log ++ [(2, 0)] := by
+  obtain ⟨n, hn⟩ : ∃ n : Nat, s.vars 26 = n := ⟨(s.vars 26).toNat, by omega⟩
+  have e : ((n : Int) + 2).toNat = n + 2 := by omega
+  have hrep : List.replicate (n + 2) garbage = garbage :: garbage :: List.replicate n garbage := by
+    rw [List.replicate_succ, List.replicate_succ]
+  by_cases hy : s.vars 14 = 0 <;> by_cases hf : s.vars 25 = 0 <;> by_cases ht : s.vars 17 = 0
+  all_goals
+    refine ⟨_, by simp [Gen.FlushC99.restart, St.run, Ex.eval, bind, Option.bind, pure, b2i, hslot, hy, hf, ht, harr, hn, e, hrep, setVar_vars]; rfl, ?_⟩
+    refine ⟨⟨?_, ?_, ?_, ?_, ?_, ?_, ?_, ?_, ?_, ?_, ?_⟩, ?_, ?_, ?_, ?_, ?_, ?_⟩ <;>
+      simp [setVar_vars, Gen.Flush.cYY_BUFFER_NEW, hslot, hy, hf, ht, hn] <;> omega
+
 end FlexVerif.C11FlushC99
